@@ -150,22 +150,52 @@ func runCsv(cfg *config) {
 	}
 	cwd, _ := os.Getwd()
 	inPath, outPath, dbDir := filepath.Join(cwd, "csv.in"), filepath.Join(cwd, "csv.out"), filepath.Join(cwd, "csvdb")
-	os.MkdirAll(dbDir, 0755)
-	fin, _ := os.Create(inPath)
-	w := bufio.NewWriter(fin)
-	for _, c := range cases {
-		fmt.Fprintf(w, "case\nschema %s\nmap %s %s %d\ncsv %s\n", c.schema, c.dst, c.src, int(c.sep), hx.Hex([]byte(c.data)))
+	allPath := filepath.Join(cwd, "csv.all")
+	all, _ := os.Create(allPath)
+	// The importer does its work in a goroutine of its own: a panic there ends the driver process.
+	// The driver flushes after every case, so the case that was running is known; it is recorded as
+	// "panic" and the driver is started again on the cases after it.
+	for start := 0; start < len(cases); {
+		os.RemoveAll(dbDir)
+		os.MkdirAll(dbDir, 0755)
+		fin, _ := os.Create(inPath)
+		w := bufio.NewWriter(fin)
+		for _, c := range cases[start:] {
+			fmt.Fprintf(w, "case\nschema %s\nmap %s %s %d\ncsv %s\n", c.schema, c.dst, c.src, int(c.sep), hx.Hex([]byte(c.data)))
+		}
+		w.Flush()
+		fin.Close()
+		os.Remove(outPath)
+		cmd := exec.Command("go", "test", "-tags", "verif", "-vet=off", "-count=1", "-run", "TestVerifCsvDriver", "./cmd/csvimport")
+		cmd.Dir = "/repo"
+		cmd.Env = append(os.Environ(), "VERIF_CSV_IN="+inPath, "VERIF_CSV_OUT="+outPath, "VERIF_CSV_DIR="+dbDir)
+		out, err := cmd.CombinedOutput()
+		b, _ := os.ReadFile(outPath)
+		lines := strings.Split(string(b), "\n")
+		done, lastEnd := 0, 0
+		for i, l := range lines {
+			if l == "end" {
+				done++
+				lastEnd = i + 1
+			}
+		}
+		all.WriteString(strings.Join(lines[:lastEnd], "\n"))
+		if lastEnd > 0 {
+			all.WriteString("\n")
+		}
+		if err == nil {
+			break
+		}
+		if !strings.Contains(string(out), "panic") || start+done >= len(cases) {
+			fmt.Fprintf(os.Stderr, "csv driver failed: %v\n%s\n", err, out)
+			os.Exit(1)
+		}
+		all.WriteString("begin\npanic\nend\n")
+		cfg.st.Inc("driver-crash")
+		start += done + 1
 	}
-	w.Flush()
-	fin.Close()
-	cmd := exec.Command("go", "test", "-tags", "verif", "-vet=off", "-count=1", "-run", "TestVerifCsvDriver", "./cmd/csvimport")
-	cmd.Dir = "/repo"
-	cmd.Env = append(os.Environ(), "VERIF_CSV_IN="+inPath, "VERIF_CSV_OUT="+outPath, "VERIF_CSV_DIR="+dbDir)
-	if out, err := cmd.CombinedOutput(); err != nil {
-		fmt.Fprintf(os.Stderr, "csv driver failed: %v\n%s\n", err, out)
-		os.Exit(1)
-	}
-	fout, err := os.Open(outPath)
+	all.Close()
+	fout, err := os.Open(allPath)
 	if err != nil {
 		fmt.Fprintln(os.Stderr, err)
 		os.Exit(1)
@@ -245,4 +275,5 @@ func runCsv(cfg *config) {
 	os.RemoveAll(dbDir)
 	os.Remove(inPath)
 	os.Remove(outPath)
+	os.Remove(allPath)
 }
